@@ -243,6 +243,17 @@ theorem finding_C04_duckdb_contradictory_range_filter :
     rows.countP (fun r => p.eval r = .t) = 0 ∧
     (Impl.step [⟨2, rows⟩] (.delete 0 (some p))).map (fun r => r.2.rowcount) = .ok 0 := by decide
 
+/-- **A rejected statement leaves no result on the cursor**: whatever the cursor held from an earlier statement, after a
+    statement that raises, `rowcount` is None and there is no open result set (the earlier statement's count and status row are
+    gone); after a successful one the cursor holds exactly that statement's observation. -/
+theorem C04_failed_statement_clears_result (prev : CurRes) (db : DB) (s : Stmt) :
+    (∀ e, Impl.step db s = .error e → Impl.executeOn prev db s = ({ result := none, rowcount := none }, .error e)) ∧
+    (∀ db' o, Impl.step db s = .ok (db', o) →
+      Impl.executeOn prev db s = ({ result := some ⟨o.names, o.rows⟩, rowcount := some o.rowcount }, .ok db')) := by
+  constructor
+  · intro e h; simp [Impl.executeOn, h]
+  · intro db' o h; simp [Impl.executeOn, h]
+
 /-! ### execute_string, nop_regexes -/
 
 /-- **`execute_string` = one cursor per statement**: when every statement of the script is accepted, the i-th
